@@ -53,8 +53,8 @@ ANCHORS = [
 
 def plan(tier):
     if tier == "quick":
-        return {"shards": 16, "families": 100, "values": 10, "timeout": 300}
-    return {"shards": 16, "families": 5000, "values": 12, "timeout": 3000}
+        return {"shards": 16, "families": 100, "values": 10, "timeout": 900}
+    return {"shards": 16, "families": 5000, "values": 12, "timeout": 7200}
 
 
 def class_kw_value(rng, gen, key):
